@@ -18,6 +18,14 @@ from mc import rng
 from mc.explorer import System, Violation, jsonable
 from checks.drivers import DRIVERS, drift_prefixes
 
+# The process-level state of the menelaus modules is recorded NOW, before any detector has been used: tasks() runs real
+# detectors in the parent process (drift_prefixes) and the workers are forked from it, so a snapshot first taken inside
+# a worker would already contain whatever a changed tree keeps at module level, "pristine" would not be pristine and a
+# violation found in a worker would not replay in a fresh process.
+from mc import procstate as _procstate
+
+_procstate.reset()
+
 PROPERTY = "C02"
 
 NAMES = ("DDM", "EDDM", "STEPD", "PageHinkley", "CUSUM", "KdqTreeStreaming", "KdqTreeBatch", "HDDDM", "CDBD", "NNDVI")
@@ -233,6 +241,325 @@ class Twin(System):
 
 SYSTEMS = {n: Twin(DRIVERS[n]) for n in NAMES}
 
+
+# ----------------------------------------------------------------------------
+# Cross family (round 5): two objects of one class whose parameter sets differ in exactly ONE parameter (or not at
+# all), used alternately in one process.  The twin of the plain families lives in the same process as the running
+# detector and therefore sees whatever the library keeps at module / class level exactly as the running detector does;
+# here every expectation is produced ALONE in a pristine process state (mc.procstate.reset()):
+#   * solo        - the whole trace of each object must equal the trace of the same object (same parameters, same
+#                   batches, same seed per call) run alone;
+#   * clean-slate - from the update after a drift on, the object must report what a newly constructed detector with
+#                   the documented carry-over reports when it is run alone on the post-drift batches (same seeds).
+# Seeds: call number i of an object with parameter set q is preceded by rng.seed_step(seed, name, "x5", q, i) in the
+# paired run, in the solo run and in the solo twin run.
+# ----------------------------------------------------------------------------
+CROSS_BASE = {
+    "NNDVI": {"k_nn": 2, "sampling_times": 8, "alpha": 0.3},
+    "KdqTreeBatch": {"alpha": 0.3, "bootstrap_samples": 10, "count_ubound": 1},
+    "KdqTreeStreaming": {"window_size": 2, "persistence": 0.0, "alpha": 0.6, "bootstrap_samples": 8, "count_ubound": 1},
+    "HDDDM": {"detect_batch": 2, "statistic": "stdev", "significance": 0.5, "subsets": 3},
+    "CDBD": {"detect_batch": 2, "statistic": "stdev", "significance": 0.5, "subsets": 3},
+}
+# parameter -> the other values it takes (one parameter at a time, each paired with the base set in both orders)
+CROSS_VARY = {
+    "NNDVI": {"sampling_times": [5, 12], "k_nn": [1], "alpha": [0.6]},
+    "KdqTreeBatch": {"bootstrap_samples": [6, 14], "alpha": [0.6], "count_ubound": [2]},
+    "KdqTreeStreaming": {"bootstrap_samples": [5, 12], "alpha": [0.3], "count_ubound": [2], "window_size": [3]},
+    "HDDDM": {"subsets": [5], "significance": [0.3], "detect_batch": [1]},
+    "CDBD": {"subsets": [5], "significance": [0.3], "detect_batch": [1]},
+}
+# name: (quick: length of a's history, of b's history), (thorough: ...)
+CROSS_PLAN = {
+    "NNDVI": ((3, 2), (4, 2)),
+    "KdqTreeBatch": ((3, 1), (3, 2)),
+    "KdqTreeStreaming": ((4, 2), (5, 3)),
+    "HDDDM": ((3, 2), (4, 2)),
+    "CDBD": ((3, 2), (4, 2)),
+}
+# classes for which tasks are generated.  Parameter tables for KdqTreeBatch / KdqTreeStreaming / HDDDM / CDBD are kept
+# above, but their cost was measured at 20 - 260 CPU-s per ordered pair, beyond this check's budget: not enabled.
+CROSS_NAMES = ("NNDVI",)
+CROSS_ALL = ("NNDVI", "KdqTreeBatch", "KdqTreeStreaming", "HDDDM", "CDBD")
+
+
+def cross_param_sets(name):
+    """[(id, params)]: id 'base' or '<parameter>=<value>'"""
+    base = CROSS_BASE[name]
+    out = [("base", dict(base))]
+    for k, vals in CROSS_VARY[name].items():
+        for v in vals:
+            out.append(("%s=%s" % (k, v), dict(base, **{k: v})))
+    return out
+
+
+def cross_pairs(name):
+    """ordered pairs (base, variant), (variant, base) for every one-parameter variant of the base set, plus (base, base)"""
+    sets = cross_param_sets(name)
+    out = []
+    for ia, pa in sets:
+        for ib, pb in sets:
+            n = sum(1 for k in pa if pa[k] != pb[k])
+            if (n == 1 and "base" in (ia, ib)) or (n == 0 and ia == "base"):
+                out.append((ia, ib))
+    return out
+
+
+def cross_schedules(la, lb):
+    """interleavings of a's la calls with b's lb calls: strict alternation (a first) and every block schedule 'a runs
+    s calls ahead, then b runs its whole history, then a finishes' (s = 0 .. la-1; b's view of 'b first, then a' is
+    the swapped pair)"""
+    out = {}
+    for first in "a":
+        ev, i, j, turn = [], 0, 0, first
+        while i < la or j < lb:
+            if (turn == "a" and i < la) or j >= lb:
+                ev.append(("a", i))
+                i += 1
+            else:
+                ev.append(("b", j))
+                j += 1
+            turn = "b" if turn == "a" else "a"
+        out["alt-" + first] = ev
+    for s in range(la):
+        out["ahead%d" % s] = [("a", i) for i in range(s)] + [("b", j) for j in range(lb)] + [("a", i) for i in range(s, la)]
+    return out
+
+
+def _cross_seed(seed, name, pid, i):
+    rng.seed_step(seed, name, "x5", pid, i)
+
+
+def _cross_make(name, pid, p):
+    rng.seed_step(0, name, "x5", pid, "init")
+    return DRIVERS[name].make(p)
+
+
+def _cross_obs(tw, det, off):
+    try:
+        o = tw._public(det, off)
+        o.update(tw._optional(det))
+        return o
+    except Exception as e:  # a read-out that fails is an observation like any other
+        return {"readout_exception": type(e).__name__}
+
+
+_SOLO_CACHE = {}
+
+
+def cross_solo(name, pid, p, hist, seed):
+    """(trace, twin) of ONE object run alone: trace[i] = public observation after call i (or the exception type);
+    twin[i] = what a newly constructed detector with the documented carry-over, run alone on the batches since the last
+    drift, reports after call i (absent in the first epoch).  Every run starts from a pristine process state."""
+    from mc import procstate
+
+    key = (seed, name, pid, tuple(hist))
+    if key in _SOLO_CACHE:
+        return _SOLO_CACHE[key]
+    d, tw = DRIVERS[name], SYSTEMS[name]
+    procstate.reset()
+    D = _cross_make(name, pid, p)
+    trace, starts, dead = [], [], False
+    for i, sym in enumerate(hist):
+        if dead:
+            trace.append(None)
+            continue
+        if D.drift_state == "drift":
+            starts.append(i)
+        _cross_seed(seed, name, pid, i)
+        try:
+            d.feed(D, sym, p)
+            trace.append(_cross_obs(tw, D, 0))
+        except Exception as e:
+            trace.append({"exception": type(e).__name__})
+            dead = True
+    twin = {}
+    for n, i in enumerate(starts):
+        end = starts[n + 1] if n + 1 < len(starts) else len(hist)
+        procstate.reset()
+        _cross_seed(seed, name, pid, i)
+        try:
+            T = tw._fresh(p, {"stream": list(hist[:i])}, hist[i - 1])
+        except Exception as e:
+            twin[i] = {"exception": type(e).__name__}
+            continue
+        for j in range(i, end):
+            if trace[j] is None:
+                break
+            if j > i:
+                _cross_seed(seed, name, pid, j)
+            try:
+                d.feed(T, hist[j], p)
+                twin[j] = _cross_obs(tw, T, 0)
+            except Exception as e:
+                twin[j] = {"exception": type(e).__name__}
+                break
+    procstate.reset()
+    if len(_SOLO_CACHE) > 20000:
+        _SOLO_CACHE.clear()
+    _SOLO_CACHE[key] = (trace, twin)
+    return trace, twin
+
+
+class Cross(System):
+    """cfg: name (class), a / b = [parameter-set id, params], ha / hb = the two histories, program = [[role, index]].
+    The events of an execution are the entries of cfg['program'] in order (the expectations are computed in init())."""
+
+    def __init__(self, name):
+        self.cls_name = name
+        self.name = "Cross:" + name
+
+    def init(self, cfg):
+        from mc import procstate
+
+        name = self.cls_name
+        exp = {}
+        for r in "ab":
+            pid, p = cfg[r]
+            exp[r] = cross_solo(name, pid, p, cfg["h" + r], cfg["seed_used"])
+        procstate.reset()
+        st = {"exp": exp, "dead": {"a": False, "b": False}, "off": {"a": 0, "b": 0}, "epoch": {"a": 0, "b": 0}}
+        for r in "ab":
+            st[r] = _cross_make(name, cfg[r][0], cfg[r][1])
+        return st
+
+    def alphabet(self, cfg, state, pos):
+        return [cfg["program"][pos]] if pos < len(cfg["program"]) else []
+
+    def step(self, cfg, state, ev, pos, ctx):
+        name = self.cls_name
+        d, tw = DRIVERS[name], SYSTEMS[name]
+        r, i = ev
+        pid, p = cfg[r]
+        sym = cfg["h" + r][i]
+        D = state[r]
+        trace, twin = state["exp"][r]
+        if state["dead"][r]:
+            return {"skipped": True}
+        if D.drift_state == "drift":
+            state["off"][r] = d.counters(D)[0]
+            state["epoch"][r] += 1
+        off = state["off"][r]
+        _cross_seed(cfg["seed_used"], name, pid, i)
+        try:
+            d.feed(D, sym, p)
+            o0 = _cross_obs(tw, D, 0)
+            oo = _cross_obs(tw, D, off) if state["epoch"][r] else None
+        except Exception as e:
+            o0 = oo = {"exception": type(e).__name__}
+            state["dead"][r] = True
+        other = cfg["b" if r == "a" else "a"][0]
+        what = "%s(%s) call %d (batch %r) while a %s(%s) is used in the same process" % (name, pid, i, sym, name, other)
+        e0 = trace[i]
+        bad = [k for k in sorted(set(e0) | set(o0)) if not _same(e0.get(k), o0.get(k))]
+        if bad:
+            raise Violation(
+                "cross-solo",
+                "%s reports %s differently from the same object run alone in a fresh process state" % (what, bad),
+                expected={k: e0.get(k) for k in bad}, observed={k: o0.get(k) for k in bad},
+                sig="cross-solo:%s:%s" % (name, ",".join(bad)),
+            )
+        ctx.count("cross_solo_compared_steps")
+        if i in twin and oo is not None:
+            et = twin[i]
+            bad = [k for k in sorted(et) if not _same(et[k], oo.get(k))]
+            if bad:
+                raise Violation(
+                    "cross-clean-slate",
+                    "%s, %d batches after its drift, reports %s differently from a newly constructed detector run alone on the post-drift batches"
+                    % (what, d.counters(D)[0] - off if "exception" not in o0 else -1, bad),
+                    expected={k: et.get(k) for k in bad}, observed={k: oo.get(k) for k in bad},
+                    sig="cross-clean-slate:%s:%s" % (name, ",".join(bad)),
+                )
+            ctx.mark("cross_clean_slate_compared_steps")
+            if cfg["a"][0] != cfg["b"][0]:
+                ctx.count("cross_clean_slate_steps_with_differing_parameter")
+        if o0.get("state") == "drift":
+            ctx.mark("cross_drifts")
+        return o0
+
+
+for _n in CROSS_ALL:
+    SYSTEMS["Cross:" + _n] = Cross(_n)
+
+
+def run_cross(task, seed):
+    """fn task: one class, one ordered pair of parameter sets; every history of a x every history of b x every
+    schedule, each executed from scratch after mc.procstate.reset()."""
+    import time
+    from mc.explorer import Ctx, artefact, run_path, HarnessError
+
+    t0 = time.time()
+    name = task["cls"]
+    system = SYSTEMS["Cross:" + name]
+    d = DRIVERS[name]
+    sets = dict(cross_param_sets(name))
+    ia, ib = task["pair"]
+    la, lb = task["lens"]
+    alpha = list(d.alphabet(sets[ia]))
+    alpha_b = cross_b_alphabet(name, task["tier"])
+    ctx = Ctx(seed)
+    st = ctx.stats
+    violations, per_sig = [], {}
+    scheds = cross_schedules(la, lb)
+    for ha in itertools.product(alpha, repeat=la):
+        if task.get("first") is not None and ha[0] != task["first"]:
+            continue
+        for hb in itertools.product(alpha_b, repeat=lb):
+            for sname, prog in scheds.items():
+                cfg = {"id": "%s|%s" % (ia, ib), "name": name, "a": [ia, sets[ia]], "b": [ib, sets[ib]], "ha": list(ha), "hb": list(hb),
+                       "schedule": sname, "program": [list(e) for e in prog], "seed_used": seed}
+                state = system.init(cfg)
+                nmarks, ok = 0, True
+                for pos, ev in enumerate(cfg["program"]):
+                    ctx.marks = 0
+                    try:
+                        system.step(cfg, state, ev, pos, ctx)
+                    except Violation as v:
+                        ok = False
+                        st["violations_raw"] += 1
+                        st["sig:" + str(v.sig)] += 1
+                        per_sig[v.sig] = per_sig.get(v.sig, 0) + 1
+                        if per_sig[v.sig] <= 2:
+                            bad = cfg["program"][: pos + 1]
+                            _SOLO_CACHE.clear()
+                            _, v2 = run_path(system, cfg, bad, seed)
+                            if v2 is None or (v2.sub, v2.msg) != (v.sub, v.msg):
+                                raise HarnessError("HARNESS-NONDET: violation %r on %s cfg=%r did not reproduce from scratch" % ((v.sub, v.msg), system.name, cfg))
+                            violations.append(artefact(PROPERTY, system, cfg, seed, bad, v))
+                        break
+                    st["transitions"] += 1
+                    st["states"] += 1
+                    if ctx.marks:
+                        nmarks += 1
+                if not ok:
+                    continue
+                st["executions"] += 1
+                st["cross_executions"] += 1
+                st["cross_executions:" + name] += 1
+                if nmarks:
+                    st["nontrivial_executions"] += 1
+    return {"stats": dict(st), "violations": violations, "samples": [], "wall": time.time() - t0}
+
+
+def cross_b_alphabet(name, tier):
+    """symbols of the OTHER object's history: the whole alphabet (a restriction to the two batch sizes [0, 3] was tried
+    and did NOT expose a stale-workspace change for every seed)"""
+    d = DRIVERS[name]
+    full = list(d.alphabet(CROSS_BASE[name]))
+    return full
+
+
+def cross_tasks(tier):
+    out = []
+    for name in CROSS_NAMES:
+        la, lb = CROSS_PLAN[name][0 if tier == "quick" else 1]
+        for ia, ib in cross_pairs(name):
+            for first in DRIVERS[name].alphabet(CROSS_BASE[name]):
+                out.append({"fn": "run_cross", "system": "Cross:" + name, "cls": name, "pair": [ia, ib], "lens": [la, lb], "first": first, "tier": tier,
+                            "cfg": {}, "label": "Cross:%s|%s|%s|first=%s" % (name, ia, ib, first), "cost": 6 * COST.get(name, 1)})
+    return out
+
 PLAN = {
     # name: (quick depth, thorough depth, prefix split)
     "DDM": (13, 17, 2),
@@ -317,6 +644,7 @@ def tasks(tier, seed):
                         "validate_every": 211,
                     }
                 )
+    out += cross_tasks(tier)
     return out
 
 
@@ -328,6 +656,8 @@ REQUIRED = [
     "warning_in_later_epochs",
     "set_reference_events",
     "set_reference_right_after_drift",
+    "cross_solo_compared_steps",
+    "cross_executions",
 ]
 
 
@@ -341,6 +671,17 @@ def describe(tier):
             "depth": {k: (v[0] if tier == "quick" else v[1]) for k, v in PLAN.items()},
             "alphabets": {k: list(map(str, DRIVERS[k].symbols)) + (["set_reference(menu 1)", "set_reference(menu 3)"] if DRIVERS[k].kind == "batch" else []) for k in NAMES},
             "parameter_sets": {k: len(DRIVERS[k].all_configs(tier)) for k in NAMES},
+            "cross_family": {
+                "classes": list(CROSS_NAMES),
+                "parameter_sets": {n: [i for i, _ in cross_param_sets(n)] for n in CROSS_NAMES},
+                "ordered_pairs": {n: len(cross_pairs(n)) for n in CROSS_NAMES},
+                "history_lengths_a_b": {n: list(CROSS_PLAN[n][0 if tier == "quick" else 1]) for n in CROSS_NAMES},
+                "schedules": "strict alternation (a first); a runs s calls, b its whole history, a the rest (s = 0 .. len(a)-1)",
+                "rule": "two objects of one class, parameter sets equal (base) or differing in exactly one parameter, every "
+                "history of a x every history of b over the update alphabet x every schedule, each execution from scratch "
+                "after mc.procstate.reset(); each object's whole trace must equal its solo trace and, after a drift, the "
+                "trace of a newly constructed detector with the carry-over run alone (both computed in a pristine process state)",
+            },
             "families": "besides the plain parameter sets: DataFrame / list / float32 containers, integer-typed samples, level 3e7 / 1e6 and scale 1e-6 / 1e-3 for the univariate detectors (drivers.family_configs)",
         },
         "explanation": "differential oracle between two real objects; compared: drift_state, retraining_recs and total "
@@ -351,5 +692,7 @@ def describe(tier):
             "CUSUM carry-over = numpy mean and population std of the last burn_in observations (documented); with burn_in=0 the constructor values carry over",
             "batch detectors: carry-over = the drifted batch as reference; NNDVI.set_reference is documented not to touch the counters",
             "numpy's global RNG is re-seeded identically before the running detector's call and before the twin's construction+call",
+            "cross family: call i of an object is seeded by (VERIF_SEED, class, parameter-set id, i) in the paired run, the solo run and the solo twin run; "
+            "only NNDVI is enabled (kdq / HDM pairs cost 20-260 CPU-s per ordered pair); cross_clean_slate_* and cross_drifts depend on permutation draws and are reported, not required",
         ],
     }
